@@ -23,8 +23,9 @@ LEVEL_NOTE = ("PARTIAL: the dbos / sqlalchemy / asyncpg packages are absent and 
               "durable mailbox is needed. The end-to-end statement (published events of a real recovered DBOS workflow) is NOT decided.")
 DESIGN_REF = "§5 C27"
 RULE = "case = (deterministic program, journal prefix length p, latency perturbation seed); all p enumerated per program; distinct = hash(program seed, p); non-trivial = p >= 1 and the perturbed run would have completed tasks in another order"
-REQUIRED_REACH = ["recording_run", "recovery_run", "replayed_completions_eval", "order_would_differ_without_journal", "result_compare", "journal_integrity_eval"]
-ASSUMPTIONS = ["substitute stack, see level_note", "programs without timers (retry delays 0, no waiter timeouts)"]
+REQUIRED_REACH = ["recording_run", "recovery_run", "replayed_completions_eval", "order_would_differ_without_journal", "result_compare", "journal_integrity_eval",
+                  "driver_recording_run", "driver_recovery_run", "driver_replayed_completions_eval", "replay_wait_timed_out_before_expected_task"]
+ASSUMPTIONS = ["substitute stack, see level_note", "engine-level programs have no timers (retry delays 0, no waiter timeouts); finite wake-up timeouts during replay are exercised by the second family, a mini control loop on the real InternalDBOSAdapter with random wait timeouts and deterministic spawning"]
 
 
 def plan(tier, seed):
@@ -217,10 +218,146 @@ def check_prefix(case, p, rows, tr1, d, acc):
         acc.violation({"mech": "journal_corrupted_by_recovery"}, f"prefix {prefix} -> journal after recovery {after}", wit)
 
 
+# ------------------------------------------------------------------ family 2: mini control loop directly on the real adapter
+# The engine-level family above has no timers, so wait_for_next_task is only ever called with timeout=None there.  This family
+# drives the real InternalDBOSAdapter the way the control loop does when scheduled wake-ups exist: finite timeouts that may expire
+# while the journal's next expected task is still running, during recording and during recovery.
+LATS = [0, 0.25, 0.5, 1, 2, 3]
+TIMEOUTS = [None, None, None, 0.1, 0.3, 0.75, 1.5]
+
+
+def gen_driver(seed):
+    rnd = random.Random(seed ^ 0x5EED27)
+    n0 = rnd.randint(2, 4)
+    workers = [{"key": [f"s{i}", 0], "lat": rnd.choice(LATS), "spawn": []} for i in range(n0)]
+    # deterministic spawning: completing worker i starts more workers (like a step result enqueueing events)
+    for j in range(rnd.randint(0, 4)):
+        parent = rnd.randrange(len(workers))
+        w = {"key": [f"c{j}", rnd.randint(0, 1)], "lat": rnd.choice(LATS), "spawn": []}
+        workers[parent]["spawn"].append(len(workers))
+        workers.append(w)
+    return {"seed": seed, "driver": True, "n0": n0, "workers": workers}
+
+
+def _drive(case, db, lat_seed, to_seed):
+    """One run of the mini loop; returns (observed keys incl. None for a timed-out wait, number of timeouts, error)."""
+    from llama_agents.dbos.runtime import InternalDBOSAdapter
+    from workflows.runtime.types.named_task import PendingWorker, get_key
+    from vf import vclock
+
+    ws = case["workers"]
+    lrnd = random.Random(lat_seed)
+    lats = [w["lat"] if lat_seed is None else lrnd.choice(LATS) for w in ws]
+    trnd = random.Random(to_seed)
+    observed = []
+
+    async def body(i):
+        await asyncio.sleep(lats[i])
+        return i
+
+    async def main():
+        adapter = InternalDBOSAdapter(run_id="R", engine=None, db_path=db)
+        pending = [PendingWorker(ws[i]["key"][0], ws[i]["key"][1], body(i)) for i in range(case["n0"])]
+        running = []
+        guard = 0
+        while pending or running:
+            guard += 1
+            if guard > 400:
+                raise RuntimeError("driver loop did not finish in 400 waits")
+            timeout = trnd.choice(TIMEOUTS)
+            res = await adapter.wait_for_next_task(list(running), pending, timeout)
+            pending = []
+            running.extend(res.started)
+            if res.completed is None:
+                observed.append(None)
+                continue
+            key = get_key(running, res.completed)
+            observed.append(key)
+            running = [nt for nt in running if nt.task is not res.completed]
+            for j in ws[res.completed.result()]["spawn"]:
+                pending.append(PendingWorker(ws[j]["key"][0], ws[j]["key"][1], body(j)))
+
+    cr = vclock.run(main, vt_limit=1e4)
+    err = None
+    if not cr.done:
+        err = "driver did not finish (quiescent before completion)"
+    elif cr.exception() is not None:
+        err = repr(cr.exception())[:300]
+    return observed, sum(1 for o in observed if o is None), err
+
+
+def run_driver(case, acc, only_p=None):
+    from vf import boot
+
+    d = boot.scratch_dir()
+    try:
+        db0 = os.path.join(d, "rec.db")
+        init_db(db0)
+        obs1, _nto, err = _drive(case, db0, None, case["seed"] * 7 + 1)
+        if err:
+            acc.inconclusive.append(f"driver recording run failed seed={case['seed']}: {err}")
+            return
+        acc.hit("driver_recording_run")
+        rows = journal_rows(db0, "R")
+        keys = [k for _s, k in rows]
+        all_keys = sorted(f"{w['key'][0]}:{w['key'][1]}" for w in case["workers"])
+        done1 = [o for o in obs1 if o is not None]
+        if keys != done1 or sorted(done1) != all_keys or [s for s, _k in rows] != list(range(len(rows))):
+            acc.violation({"mech": "journal_differs_from_processed_completions", "phase": "driver_recording"},
+                          f"journal {rows} vs observed {obs1} (workers {all_keys})", {"case": case})
+            return
+        for p in range(1, len(rows) + 1):
+            if only_p is not None and p != only_p:
+                continue
+            wit = {"case": {**case, "p": p}}
+            db = os.path.join(d, f"p{p}.db")
+            init_db(db)
+            conn = sqlite3.connect(db)
+            conn.executemany("INSERT INTO workflow_journal (run_id, seq_num, task_key) VALUES ('R', ?, ?)", rows[:p])
+            conn.commit()
+            conn.close()
+            obs2, nto, err = _drive(case, db, case["seed"] * 131 + p, case["seed"] * 977 + p)
+            acc.case()
+            acc.hit("driver_recovery_run")
+            prefix = keys[:p]
+            if err:
+                acc.violation({"mech": "recovery_run_raised", "family": "driver"}, f"recovery from journal prefix {prefix} raised/stuck: {err}", wit)
+                continue
+            done2 = [o for o in obs2 if o is not None]
+            # timeouts that expired before the whole prefix was consumed = wake-ups during the replayed part
+            k = 0
+            early = 0
+            for o in obs2:
+                if o is None:
+                    early += k < p
+                else:
+                    k += 1
+            if early:
+                acc.hit("replay_wait_timed_out_before_expected_task")
+                acc.sig(h({"s": case["seed"], "p": p, "drv": 1}))
+            acc.hit("driver_replayed_completions_eval")
+            if done2[:p] != prefix:
+                acc.violation({"mech": "replay_consumed_completions_in_other_order", "family": "driver", "timeouts_during_replay": bool(early)},
+                              f"journal prefix {prefix} but the recovered loop observed {obs2}", wit)
+                continue
+            if sorted(done2) != all_keys:
+                acc.violation({"mech": "recovered_run_completions_not_exactly_once", "family": "driver"},
+                              f"workers {all_keys} but recovered loop observed {obs2}", wit)
+                continue
+            after = journal_rows(db, "R")
+            if [k2 for _s, k2 in after] != done2 or [s2 for s2, _k in after] != list(range(len(after))):
+                acc.violation({"mech": "journal_corrupted_by_recovery", "family": "driver"},
+                              f"prefix {prefix}, observed {obs2} -> journal after recovery {after}", wit)
+    finally:
+        shutil.rmtree(d, ignore_errors=True)
+
+
 def run_shard(shard):
     acc = Acc()
     for i in range(shard["n"]):
         run_one(gen_case(shard["seed"] + i), acc)
+    for i in range(shard["n"] * 4):
+        run_driver(gen_driver(shard["seed"] + i), acc)
     return acc.to_dict()
 
 
@@ -228,5 +365,8 @@ def replay(rp):
     acc = Acc()
     c = dict(rp["case"]["case"])
     p = c.pop("p", None)
-    run_one(c, acc, only_p=p)
+    if c.get("driver"):
+        run_driver(c, acc, only_p=p)
+    else:
+        run_one(c, acc, only_p=p)
     return acc.to_dict()
